@@ -752,6 +752,33 @@ func (e *Exec) step(fr *frame, ins ssa.Instruction) {
 	}
 }
 
+// taintGlobal marks objects reachable from a package-level variable, so that
+// writes through them count as writes to shared state (footprint, C10).
+func (e *Exec) taintGlobal(v Value, from string) {
+	switch x := v.(type) {
+	case *MapV:
+		if x.m != nil && x.m.global == "" {
+			x.m.global = from[7:]
+		}
+	case *PtrV:
+		if x.obj != nil && !strings.HasPrefix(x.obj.name, "global:") {
+			x.obj.name = from + "->" + x.obj.name
+		}
+	case *SliceV:
+		if x.obj != nil && !strings.HasPrefix(x.obj.name, "global:") {
+			x.obj.name = from + "->" + x.obj.name
+		}
+	case *StructV:
+		for _, f := range x.f {
+			e.taintGlobal(f, from)
+		}
+	case *IfaceV:
+		if x.v != nil {
+			e.taintGlobal(x.v, from)
+		}
+	}
+}
+
 func (e *Exec) nilCheck(p *PtrV, what string) {
 	if p.obj == nil {
 		e.mustHold(e.st.False, "nil dereference", what)
@@ -764,10 +791,14 @@ func (e *Exec) unop(fr *frame, x *ssa.UnOp) Value {
 	case token.MUL:
 		p := v.(*PtrV)
 		e.nilCheck(p, "load through nil pointer in "+fr.fn.Name())
+		e.access(p, false, false, fr.fn.Name())
 		if strings.HasPrefix(p.obj.name, "global:") {
 			e.globalR[p.obj.name[7:]] = true
+			// whatever a package-level variable refers to is shared state as well
+			v := e.load(p)
+			e.taintGlobal(v, p.obj.name)
+			return v
 		}
-		e.access(p, false, false, fr.fn.Name())
 		return e.load(p)
 	case token.NOT:
 		return e.st.Not(v.(*Term))
@@ -1364,6 +1395,9 @@ func (e *Exec) builtin(fr *frame, name string, c *ssa.CallCommon, args []Value) 
 			return nil
 		}
 		k := args[1].(*Term)
+		if m.m.global != "" {
+			e.globalW[m.m.global] = true
+		}
 		m.m.present = e.st.StoreArr(m.m.present, k, e.st.False)
 		return nil
 	case "append":
@@ -1771,6 +1805,9 @@ func (e *Exec) mapUpdate(m *MapV, k, v Value) {
 		e.mustHold(e.st.False, "assignment to entry in nil map", "")
 	}
 	kt := k.(*Term)
+	if m.m.global != "" {
+		e.globalW[m.m.global] = true
+	}
 	m.m.present = e.st.StoreArr(m.m.present, kt, e.st.True)
 	if m.m.vw > 0 {
 		m.m.vals = e.st.StoreArr(m.m.vals, kt, v.(*Term))
